@@ -205,8 +205,16 @@ where
 
   pub(crate) fn drain_read_notifications(&self) {
     let rec = self.notification_receiver.lock().unwrap();
+    #[cfg(rustdds_verif)]
+    while rec.try_recv().is_ok() {
+      crate::verif_hooks::sched::yield_point("sdr.drained06_one");
+    }
     while rec.try_recv().is_ok() {}
+    #[cfg(rustdds_verif)]
+    crate::verif_hooks::sched::yield_point("sdr.drained06");
     self.event_source.drain();
+    #[cfg(rustdds_verif)]
+    crate::verif_hooks::sched::yield_point("sdr.drained08");
   }
 
   fn try_take_undecoded<'a>(
@@ -619,7 +627,11 @@ where
         //   error!("Setting waker for {:?}", self.simple_datareader.topic().name());
         // }
         // // DEBUG
+        #[cfg(rustdds_verif)]
+        crate::verif_hooks::sched::yield_point("sdr.take1_none");
         self.simple_datareader.set_waker(Some(cx.waker().clone()));
+        #[cfg(rustdds_verif)]
+        crate::verif_hooks::sched::yield_point("sdr.waker_set");
         match self
           .simple_datareader
           .try_take_one_with(self.decoder.clone())
